@@ -28,6 +28,8 @@ DECIDED_R6 = ('Round 6: boundary cut out of the raw CONTENT_TYPE; parts routed b
 DECIDED = DECIDED + ' ' + DECIDED_R6
 DECIDED_R7 = ('Round 7: boundary length limit only above 70 characters; min(request, remainder) needs a positive request; C06 round-7 chunk-boundary clauses as premises.')
 DECIDED = DECIDED + ' ' + DECIDED_R7
+DECIDED_R8 = ('Round 8: the upload window hands out nothing of its source but its bounded read; premise C05.d.')
+DECIDED = DECIDED + ' ' + DECIDED_R8
 NOT_DECIDED = ('the round trip itself (equality of decoded values with what was encoded over unbounded field lists); non-ASCII '
                'handling; content types of uploads.')
 ASSUMPTIONS = ['io.BytesIO / file seek+read semantics', 'the multipart encoder under test is RFC 7578 conformant']
